@@ -355,8 +355,14 @@ impl Distrib for UnitCircle {
     /// ```
     fn sample(&self, rng: &mut DefaultRng) -> Vec2 {
         let d = Uniform([-1.0; 2]..[1.0; 2]);
-        // Normalization preserves uniformity
-        Vec2::from(d.sample(rng)).normalize()
+        loop {
+            let v = Vec2::from(d.sample(rng));
+            // The zero vector has no direction, reject it
+            if v.len_sqr() != 0.0 {
+                // Normalization preserves uniformity
+                return v.normalize();
+            }
+        }
     }
 }
 
@@ -402,7 +408,13 @@ impl Distrib for UnitSphere {
     /// ```
     fn sample(&self, rng: &mut DefaultRng) -> Vec3 {
         let d = Uniform([-1.0; 3]..[1.0; 3]);
-        Vec3::from(d.sample(rng)).normalize()
+        loop {
+            let v = Vec3::from(d.sample(rng));
+            // The zero vector has no direction, reject it
+            if v.len_sqr() != 0.0 {
+                return v.normalize();
+            }
+        }
     }
 }
 
